@@ -161,7 +161,13 @@ func (a *archiver) worker(workerID string) {
 		case <-controlChans.PauseCh:
 			logger.Debug("received pause event")
 			verifhook.At("pause.ack", "arch."+workerID)
-			controlChans.ResumeCh <- struct{}{}
+			// Wait for the resume, but don't let a pause hold back the shutdown
+			select {
+			case controlChans.ResumeCh <- struct{}{}:
+			case <-a.ctx.Done():
+				logger.Debug("shutting down while paused")
+				return
+			}
 			verifhook.At("pause.resumed", "arch."+workerID)
 			logger.Debug("received resume event")
 		case seed, ok := <-a.inputCh:
